@@ -406,6 +406,19 @@ func faultCase(run *lib.Run, c int64, base string, mtx *sync.Mutex) {
 	if c < 2 {
 		run.Sample(map[string]interface{}{"history": hist, "durable_steps": writes, "released_in_reference_run": len(ref.released)})
 	}
+	// the signer file as the complete history leaves it: the start of a second process lifetime
+	postref := filepath.Join(dir, "postref")
+	os.MkdirAll(postref, 0755)
+	if fis, err := ioutil.ReadDir(dir); err == nil {
+		for _, fi := range fis {
+			if !fi.IsDir() && strings.HasPrefix(fi.Name(), "priv_validator") {
+				if b, err := ioutil.ReadFile(filepath.Join(dir, fi.Name())); err == nil {
+					ioutil.WriteFile(filepath.Join(postref, fi.Name()), b, 0600)
+				}
+			}
+		}
+	}
+	restartThenFail(run, c, dir, postref, hist, ref, wd)
 	for _, mode := range []string{"crash", "fail"} {
 		for k := 1; k <= writes; k++ {
 			work := filepath.Join(dir, fmt.Sprintf("%s%d", mode, k))
@@ -441,6 +454,76 @@ func faultCase(run *lib.Run, c int64, base string, mtx *sync.Mutex) {
 	}
 }
 
+// restartThenFail: a second process lifetime starts from the file the first one left; the k-th
+// durable step of the new process fails (k = 1.. covers every step of its first save), the
+// process goes on and is asked for signatures that contradict what the first lifetime released.
+func restartThenFail(run *lib.Run, c int64, dir, postref string, hist []req, ref childLog, wd time.Duration) {
+	var maxK [3]int64
+	have := false
+	var order []int
+	for i := range hist {
+		if _, ok := ref.released[i]; ok {
+			order = append(order, i)
+			k := [3]int64{hist[i].H, hist[i].R, int64(hist[i].step())}
+			if !have || cmpKey(k, maxK) > 0 {
+				maxK, have = k, true
+			}
+		}
+	}
+	if !have {
+		return
+	}
+	later := req{H: maxK[0], R: maxK[1] + 1, Type: types.VoteTypePrevote, Block: 1}
+	hist2 := []req{later}
+	asked := map[string]bool{}
+	for j := len(order) - 1; j >= 0 && len(hist2) < 6; j-- {
+		q := hist[order[j]]
+		if asked[q.key()] {
+			continue
+		}
+		asked[q.key()] = true
+		q.Block += 5
+		hist2 = append(hist2, q)
+	}
+	hist2 = append(hist2, later)
+	hb, _ := json.Marshal(hist2)
+	for k := 1; k <= 4; k++ {
+		work := filepath.Join(dir, fmt.Sprintf("gen2-%d", k))
+		os.MkdirAll(work, 0755)
+		copyTree(postref, work)
+		ioutil.WriteFile(filepath.Join(work, "hist.json"), hb, 0644)
+		cl, _, to := runChild(work, []string{"VERIF_FAIL_AT=" + strconv.Itoa(k)}, wd)
+		if to {
+			run.Inconclusive(fmt.Sprintf("history %d restart+fail@%d: watchdog", c, k))
+			os.RemoveAll(work)
+			continue
+		}
+		run.Count("fault_points_restart_then_fail", 1)
+		run.Nontrivial(fmt.Sprintf("restart-fail:%d:%d", c, k))
+		led := newLedger()
+		for _, i := range order {
+			var sb []byte
+			fmt.Sscanf(ref.released[i], "%X", &sb)
+			led.release(hist[i], sb)
+		}
+		for i := range hist2 {
+			sbHex, ok := cl.released[i]
+			if !ok {
+				continue
+			}
+			run.Count("second_lifetime_signed", 1)
+			var sb []byte
+			fmt.Sscanf(sbHex, "%X", &sb)
+			if cls, txt := led.release(hist2[i], sb); cls != "" {
+				run.Violation(cls+"-after-restart:after-failed-write-in-second-lifetime", fmt.Sprintf("history %d: the signer was restarted from its file, durable step %d of the new process failed, and it then signed request %d %+v: %s", c, k, i, hist2[i], txt),
+					map[string]interface{}{"first_lifetime": hist, "second_lifetime": hist2, "failed_durable_step": k, "released_in_first_lifetime": len(order)})
+				break
+			}
+		}
+		os.RemoveAll(work)
+	}
+}
+
 func main() {
 	if len(os.Args) > 1 && os.Args[1] == "child" {
 		child(os.Args[2], os.Args[3], os.Args[4])
@@ -462,5 +545,6 @@ func main() {
 	run.Require("fault_points_fail", 300)
 	run.Require("follow_up_refused", 500)
 	run.Require("inprocess_signed", 1000)
+	run.Require("fault_points_restart_then_fail", 60)
 	os.Exit(run.Finish())
 }
